@@ -12,7 +12,7 @@ def run(chk):
     nstates, suite = parsesuite.automaton_suite(mdl, 0)
     rnd = parsesuite.random_uris(chk.rng, 1500 if q else 30000)
     strs = sorted(set(suite + rnd + parsesuite.repo_corpus()))
-    if q: strs = chk.rng.sample(strs, min(len(strs), 12000))
+    if q: strs = sorted(set(chk.rng.sample(strs, min(len(strs), 12000)) + parsesuite.ip4_suite()))   # the dotted-host suite is always kept whole
     reqs = []; base = []
     # (a) page-end placement (plain builds: a read past the range or a write to the input faults)
     for f in strs:
